@@ -261,6 +261,9 @@ def check_c13(value, t, direct_field, dkf, dkr, path="$"):
         if not exp and not any(isinstance(m, (ModelPtr, ModelMeta, dict)) for m in cands):
             return f"{path}: object {jdump(value)[:60]} should be a model but is {type_repr(t0, False)}"
         if exp:
+            # "T then admits every value of every such object"
+            if value and not any(isinstance(m, DDict) and all(inh(x, m.type) for x in value.values()) for m in cands):
+                return f"{path}: no Dict[str, T] member of {type_repr(t0, False)} admits every value of {jdump(value)[:80]}"
             for m in cands:
                 if isinstance(m, DDict):
                     for k, x in value.items():
@@ -294,6 +297,9 @@ C13_SAMPLES = [
     {"f": {}, "g": {"1": {"2": 3}}},
     {"h": {"f": {"z": 1}}, "f": 3},
     {"f": [{"f": {"q": 1}}], "g": {"12": 1, "x3": 2}},
+    # sibling models that are merged in the second pass, the mapping field required on one side and optional / differently typed on the other
+    {"first": {"a": 1, "b": 2, "c": 3, "f": {"k": "x"}}, "others": [{"a": 1, "b": 2, "c": 3, "f": {"k": 1}}, {"a": 1, "b": 2, "c": 3}]},
+    {"others": [{"a": 1, "b": 2, "c": 3, "f": {"k": 1.5}}, {"a": 1, "b": 2, "c": 3}], "first": {"a": 1, "b": 2, "c": 3, "f": {"k": [1]}}},
 ]
 
 
@@ -320,7 +326,7 @@ def c13(tier, seed):
                 for dkr in ([], [r"\d+"], [r"\d"], [r"[a-z]\d"], [r"\d+", r"[a-z]+"]):
                     cases.append((list(samples), dkf, dkr))
     r = run_cases(cases, oracle_c13, "c13")
-    r["bound"] = "7 hand-made objects with digit / mixed keys, singles and pairs x 4 field lists x 5 regex lists (partially matching key sets included)"
+    r["bound"] = "9 hand-made objects with digit / mixed keys (two with sibling models merged in the second pass), singles and pairs x 4 field lists x 5 regex lists (partially matching key sets included)"
     r["function"] = "MetadataGenerator._detect_type/_convert/generate"
     return r
 
